@@ -148,6 +148,13 @@ def main():
     with xp:
         xp.workspace.launcher.setenv("PYTHONPATH", SPEC["pythonpath"])
         phase("entered")
+        if SPEC.get("barrier"):
+            # all competing experiments submit at (nearly) the same moment
+            tb = time.time()
+            while not (CTL / SPEC["barrier"]).exists() and time.time() - tb < 30:
+                time.sleep(0.001)
+            if SPEC.get("post_delay"):
+                time.sleep(SPEC["post_delay"])
         tasks = []
         if wl["kind"] in ("one", "chain2", "indep2"):
             tags = wl["tags"]
